@@ -129,7 +129,8 @@ def recipe(c: Check):
              "dgram driver: real nathole.DecodeMessageInto under recover on every datagram length 0..64 (random), every plaintext length "
              "0..24 of a valid frame, EncodeMessage outputs (must come back equal), other registered / unknown type bytes, negative / "
              "oversized / overlong lengths, truncated ciphertext, trailing bytes, bad JSON, wrong key, bodies at the bound; compared with "
-             "Model.Datagram.dg_decode (cipher and JSON layer as oracles). "
+             "Model.Datagram.dg_decode (cipher and JSON layer as oracles); plus 5 000 EncodeMessage->DecodeMessageInto round trips monitored on "
+             "the Go side and UDPPacket contents of 0..20000 bytes through the real udp.ForwardUserConn in a child process. "
              "loginx driver: authenticated Login first messages with pool_count in {-1,-10,-11,-1000,MinInt32,MinInt64,MaxInt64,...} and "
              "timestamp extremes (key computed for them) against a frps in a CHILD process; observed: reply, child alive, A's heartbeat "
              "and tunnel; the handler oracle of the model is computed from the NewControl clamp translated today (T8a). "
